@@ -24,7 +24,7 @@ RULE = (
     "arrays from the real init_fn compared with the reference selection semantics, untouched rows compared with the tables; for single "
     "calls also set vs data_set vs trainable 2-step simulations and write_trainables; state = canonical (trainable keys, index groups)"
 )
-REQUIRED_COVER = ["init_val:zero", "init_val:float", "init_val:list", "unequal_groups_last_comp_outside", "unequal_groups_last_comp_inside", "nan_rows_skipped", "edge_key_through_type_view",
+REQUIRED_COVER = ["data_set_through_original_view", "set_between_simulation_and_write_trainables", "init_val:zero", "init_val:float", "init_val:list", "unequal_groups_last_comp_outside", "unequal_groups_last_comp_inside", "nan_rows_skipped", "edge_key_through_type_view",
                   "edge_select", "shared_over_group", "state_key", "overlapping_trainables", "set_eq_data_set_eq_trainable",
                   "write_trainables", "initial_value_is_group_mean"]
 ASSUMPTIONS = [
@@ -356,7 +356,35 @@ def run_history(modname, hist, simulate=False):
                 viol("trainable_ne_set", f"rel diff {e1}", unequal_outside=unequal_outside)
             if not (e2 <= TOL):
                 viol("data_set_ne_set", f"rel diff {e2}")
-            # write_trainables writes exactly the simulated values
+            # data_set through the ORIGINAL view (which may contain rows where the key does not exist): only existing rows change
+            if len(plan) == 1 and len(plan[0][1]) == 1:
+                vi0, key0 = hist[0][0], hist[0][1]
+                m_v = copy.deepcopy(base)
+                val0 = float(np.asarray(list(new_params_used[0].values())[0])[0])
+                ps_v = views[vi0][1](m_v).data_set(key0, val0, None)
+                arr_v = _sim_arrays(m_v, param_state=ps_v)
+                for key, arr in arr_v.items():
+                    want = expected.get(key, base_arrays[key])
+                    ok = (np.isnan(want) & np.isnan(arr)) | (np.abs(arr - want) <= 1e-9 * (1 + np.abs(want)))
+                    if not np.all(ok):
+                        bad = np.where(~ok)[0].tolist()
+                        viol("data_set_through_view_touches_other_rows", f"{key}: rows {bad} got {arr[bad].tolist()} want {np.asarray(want)[bad].tolist()}",
+                             nan_rows=bool(np.isnan(np.asarray(want)[bad]).any()))
+                out["cover"].append("data_set_through_original_view")
+            # write_trainables writes exactly the simulated values -- also when the tables were edited after the last
+            # simulation: rows outside the trainable selection get a fresh set() here and must keep it
+            edited = {}
+            for key in expected:
+                outside = [r for r in range(len(expected[key])) if r not in touched.get(key, set()) and not np.isnan(expected[key][r])]
+                if outside:
+                    r0 = outside[-1]
+                    newv = float(expected[key][r0]) * 1.5 + (3.0 if key == "v" else 0.0)
+                    sel = dict(edges=[r0]) if key in EDGE_KEYS else dict(nodes=[r0])
+                    m.select(**sel).set(key, newv)
+                    expected[key] = expected[key].copy()
+                    expected[key][r0] = newv
+                    edited[key] = r0
+                    out["cover"].append("set_between_simulation_and_write_trainables")
             m.write_trainables(new_params_used)
             out["cover"].append("write_trainables")
             for key in expected:
